@@ -22,7 +22,7 @@ var dataKinds = map[string]bool{"contiguous-data": true, "chunk": true, "local-h
 	"fractal-heap-huge": true, "fixed-array-dblock": true, "ext-array-dblock": true}
 
 // metaOffsets returns the sorted metadata byte offsets of a base image, labelled by structure kind.
-func metaOffsets(b *Base) (offs []int, kind map[int]string) {
+func metaOffsets(b *Base, owner string) (offs []int, kind map[int]string) {
 	kind = map[int]string{}
 	add := func(lo, hi int, k string) {
 		if hi > len(b.Data) {
@@ -48,11 +48,17 @@ func metaOffsets(b *Base) (offs []int, kind map[int]string) {
 			if dataKinds[ex.Kind] || ex.End <= ex.Start || ex.Start >= uint64(len(b.Data)) {
 				continue
 			}
+			if owner != "" && ex.Owner != owner {
+				continue // object-targeted enumeration in a larger file: only that object's structures
+			}
 			add(int(ex.Start), int(ex.End), ex.Kind)
 		}
 	}()
 	// the harness's own scan as a complement (structures the decoder did not reach or refused)
 	for _, st := range b.Structs {
+		if owner != "" {
+			break
+		}
 		n := st.Len
 		if n == 0 {
 			n = 64
@@ -68,7 +74,33 @@ func metaOffsets(b *Base) (offs []int, kind map[int]string) {
 // fieldValues lists the mutations tried at one offset: every small value in the low byte (wider fields with zero high bytes
 // are covered by that too), the neighbours of the original byte, byte patterns, and for fields whose high bytes are in use
 // the same small values written over 2, 4 and 8 bytes.
-func fieldValues(d []byte, o int, small int) []Mut {
+// wrapValues are element counts / sizes whose product with an element size of 1, 2, 4, 8 or 16 wraps around 2^64 (2^32)
+// to a small number: 2^64/size and its neighbours, and the powers of two just below.
+func wrapValues(w int) []uint64 {
+	var out []uint64
+	seen := map[uint64]bool{}
+	add := func(v uint64) {
+		v &= ones(w)
+		if !seen[v] {
+			seen[v] = true
+			out = append(out, v)
+		}
+	}
+	bits := uint(8 * w)
+	for _, sh := range []uint{0, 1, 2, 3, 4} { // size = 1<<sh
+		q := uint64(1) << (bits - sh) // 2^bits / size (0 for size 1: the all-ones neighbour below stands for it)
+		add(q - 1)
+		if sh > 0 {
+			add(q)
+			add(q + 1)
+		}
+	}
+	add(uint64(1)<<(bits-3) + 1)
+	return out
+}
+
+// fieldValues: wrap adds the wrap-around set over 4 and 8 bytes (used inside object headers, where counts and sizes are multiplied).
+func fieldValues(d []byte, o int, small int, wrap bool) []Mut {
 	var out []Mut
 	orig := d[o]
 	seen := map[uint64]bool{uint64(orig): true}
@@ -105,8 +137,26 @@ func fieldValues(d []byte, o int, small int) []Mut {
 		}
 		out = append(out, Mut{K: "set", Off: o, W: w, V: ones(w), VK: "max"})
 	}
+	if wrap {
+		for _, w := range []int{4, 8} {
+			if o+w > len(d) {
+				break
+			}
+			for _, v := range wrapValues(w) {
+				out = append(out, Mut{K: "set", Off: o, W: w, V: v, VK: "wrap"})
+			}
+		}
+	}
 	return out
 }
+
+// objTarget: one object of a larger corpus file whose structures are enumerated like a small file's (compact datasets exist
+// only in such files: the library cannot write the compact layout).
+type objTarget struct{ base, owner string }
+
+var objTargetsQuick = []objTarget{{"corpus/hdf5_official/h5copytst.h5", "/compact"}}
+var objTargetsThorough = []objTarget{{"corpus/hdf5_official/h5copytst_new.h5", "/compact"}, {"corpus/hdf5_official/h5repack_layout.h5", "/dset_compact"},
+	{"corpus/hdf5_official/tfilters.h5", "/compact"}}
 
 var enumFilesQuick = []string{"corpus/v0.h5", "corpus/compound_test.h5", "corpus/v2.h5", "corpus/with_groups.h5"}
 var enumFilesThorough = []string{"corpus/string_test.h5", "corpus/test_attributes.h5", "corpus/multiple_datasets.h5", "corpus/test_3d_chunked.h5",
@@ -129,7 +179,20 @@ func fieldsEnum(t *testing.T) {
 	}
 	var jobs []job
 	nOff := 0
+	type src struct{ base, owner string }
+	var srcs []src
 	for _, name := range files {
+		srcs = append(srcs, src{name, ""})
+	}
+	targets := append([]objTarget(nil), objTargetsQuick...)
+	if vt.Thorough() {
+		targets = append(targets, objTargetsThorough...)
+	}
+	for _, tg := range targets {
+		srcs = append(srcs, src{tg.base, tg.owner})
+	}
+	for _, sc := range srcs {
+		name := sc.base
 		b, ok := e.reg.bases[name]
 		if !ok {
 			continue
@@ -141,10 +204,11 @@ func fieldsEnum(t *testing.T) {
 		if fr.timedOut || len(fr.fails) > 0 {
 			continue
 		}
-		offs, kind := metaOffsets(b)
+		offs, kind := metaOffsets(b, sc.owner)
 		for _, o := range offs {
 			nOff++
-			for _, m := range fieldValues(b.Data, o, small) {
+			inHeader := strings.HasPrefix(kind[o], "ohdr") || strings.HasPrefix(kind[o], "msg:") || kind[o] == "OHDR" || kind[o] == "OHv1" || kind[o] == "OCHK"
+			for _, m := range fieldValues(b.Data, o, small, inHeader) {
 				m.At = fmt.Sprintf("%s@%d", kind[o], o)
 				jobs = append(jobs, job{name, m})
 			}
@@ -158,7 +222,7 @@ func fieldsEnum(t *testing.T) {
 		}
 	}
 	if env.Shard == 0 {
-		rec.Note("fields: %d base files, %d metadata byte offsets, %d (offset, width, value) cases over all shards: every value 0..%d, original+-1, 0x7F, 0x80, 0xFF in each byte, and 0..%d / all-ones over 2, 4, 8 bytes where the upper half of the field is in use", len(files), nOff, len(jobs), small, small)
+		rec.Note("fields: %d base files + %d single objects of larger files (compact datasets), %d metadata byte offsets, %d (offset, width, value) cases over all shards: every value 0..%d, original+-1, 0x7F, 0x80, 0xFF in each byte, 0..%d / all-ones over 2, 4, 8 bytes where the upper half of the field is in use, and inside object headers the wrap-around set (2^bits/size and neighbours for size 1..16) over 4 and 8 bytes", len(files), len(targets), nOff, len(jobs), small, small)
 	}
 	ses.parallel(nWorkers, len(mine), func(w *worker, i int) {
 		j := mine[i]
